@@ -40,7 +40,7 @@ def trace_classes(trace, keys):
 
 
 def run_contract(ctx, family, driver_args, class_keys, rule, assumptions, mc_runs=(), trace_module="ContractTrace",
-                 level="model_checking", heap="3g", extra=None):
+                 level="model_checking", heap="3g", extra=None, side=None):
     wd = ctx.wd
     vlib.stage_specs(wd)
     drv = vlib.build_harness()
@@ -59,5 +59,7 @@ def run_contract(ctx, family, driver_args, class_keys, rule, assumptions, mc_run
     ex = {"driver_stats": stats}
     if extra:
         ex.update(extra)
+    if side:            # informational companion runs of a check (never part of the verdict)
+        ex.update(side(ctx, wd, drv))
     return ctx.finish(level, val, evaluations=int(stats.get("scenarios", nenc)), samples=samples, rule=rule,
                       assumptions=assumptions, extra=ex, distinct=len(classes))
